@@ -50,6 +50,16 @@ class TLCResult:
             (self.error or "")[:200])
 
 
+def load_scaled(timeout):
+    """time limits are protections against hung tools, not part of any verdict: on an oversubscribed machine (load average
+    above the number of cores) they are stretched proportionally, up to 5x, so that slowness is not mistaken for a hang."""
+    try:
+        f = os.getloadavg()[0] / max(1, (os.cpu_count() or 1))
+    except OSError:
+        f = 1.0
+    return int(timeout * min(5.0, max(1.0, f)))
+
+
 class Ctx:
     def __init__(self, pid, tier, seed, replay=None):
         self.pid = pid
@@ -117,6 +127,7 @@ class Ctx:
 
     def run_harness(self, binary, args, cwd=None, timeout=600, env=None, check=True, stdin=None):
         """run a harness binary with a scratch cwd (the engine writes policies.yaml into cwd)."""
+        timeout = load_scaled(timeout)
         cwd = cwd or self.sub("cwd")
         e = dict(os.environ)
         e["VERIF_REPO"] = REPO
@@ -155,6 +166,7 @@ class Ctx:
             deque=False, count=True, label=None, simulate=None, depth=None, heap=None):
         """run TLC on <specdir>/<module>.tla with <cfg>; parse the result."""
         cfg = cfg or (module + ".cfg")
+        timeout = load_scaled(timeout)
         meta = tempfile.mkdtemp(prefix="meta-", dir=self.scratch)
         w = str(workers if workers is not None else (NCPU if self.thorough else min(8, NCPU)))
         jopts = ["-XX:+UseParallelGC", "-Xss64m"]
